@@ -86,8 +86,12 @@ def near_miss_words():
     return out
 
 
-def fam(name, lines, rule, exhaustive=False, categories=None, nontrivial=None, profiles=None, pinned=False):
+def fam(name, lines, rule, exhaustive=False, categories=None, nontrivial=None, profiles=None, pinned=False, beyond=False):
+    """pinned: the theorems fix the model's output on these cases, so a disagreement is itself a failing input.
+    beyond: the family compares behaviour the property does NOT fix (it only ties helper definitions of the model); a
+    disagreement there is recorded as model drift in the evidence and is not a verdict."""
     return {
+        "beyond": beyond,
         "profiles": profiles or ["release", "chk"],
         "pinned": pinned,
         "name": name,
@@ -102,6 +106,15 @@ def fam(name, lines, rule, exhaustive=False, categories=None, nontrivial=None, p
 def fam_cmd(name, cases_args, rule, exhaustive=True, shard=True, profiles=None, pinned=False):
     return {"name": name, "cases_cmd": cases_args, "rule": rule, "exhaustive": exhaustive, "categories": {}, "shard": shard,
             "profiles": profiles or ["release", "chk"], "pinned": pinned}
+
+
+def fam_sweep(name, op, k, order, expect, theorem, rule, seed=1, stride=1, offset=0, alphabet="deck", profiles=None):
+    """exhaustive implementation-only family: `ckc-probe sweep` runs the projection `op` on every k-subset of the deck (or
+    k-multiset over deck + blank) in the given slot order; the model's line is the constant `expect` by `theorem`"""
+    args = ["--op", op, "--k", str(k), "--order", str(order), "--alphabet", alphabet, "--seed", str(seed),
+            "--stride", str(stride), "--offset", str(offset % max(1, stride))]
+    return {"name": name, "sweep": args, "expect": expect, "theorem": theorem, "rule": rule, "exhaustive": stride == 1,
+            "categories": {}, "profiles": profiles or ["release"], "pinned": True}
 
 
 # ---- word-level families ------------------------------------------------------------------------
@@ -230,14 +243,18 @@ def c01_families(rng, tier):
 
 def c13_families(rng, tier):
     n = 200000 if tier == "quick" else 2000000
-    sh, cats = shuffled_fives(rng, n, "pred5")
+    sh, cats = shuffled_fives(rng, n, "pred5p")
+    mech, _ = shuffled_fives(rng, 20000, "pred5")
     return [
-        fam_cmd("pred5_deck_order", ["hands", "--k", "5", "--op", "pred5"],
-                "ALL 2,598,960 five-card subsets in deck order: is_flush, is_straight, is_straight_flush, is_wheel, "
-                "or_rank_bits, and_bits, or_bits, multiply_primes, evaluate::is_flush, evaluate::or_rank_bits", pinned=True),
-        fam("pred5_structured", structured_fives(rng, "pred5"),
+        fam_cmd("pred5_deck_order", ["hands", "--k", "5", "--op", "pred5p"],
+                "ALL 2,598,960 five-card subsets in deck order: is_flush, is_straight, is_straight_flush, is_wheel; evaluate::is_flush and "
+                "evaluate::or_rank_bits agree with the methods; each predicate agrees with the category name of hand_rank() of the same "
+                "hand (projection: booleans only)", pinned=True),
+        fam("pred5_structured", structured_fives(rng, "pred5p"),
             "straights, wheels and repeated-rank hands spanning five ranks, shuffled slots", pinned=True),
         fam("pred5_shuffled", sh, "seeded random hands in random slot order", categories=cats, pinned=True),
+        fam("pred5_mechanism", mech, "the intermediate words or_rank_bits, and_bits, or_bits, multiply_primes on seeded hands (beyond the "
+            "property: ties the model's helpers)", beyond=True),
     ]
 
 
@@ -295,6 +312,9 @@ def c05_families(rng, tier):
         fams.append(fam("slots%d_card_or_blank" % k, lines,
                         "seeded %d-slot arrays over {52 cards, blank} in random order with repetition (blank density 0/10/40/90%%), "
                         "plus the all-blank default hand" % k, categories=cats, profiles=["release", "chk"], pinned=True))
+    fams += sweeps(rng, tier, lambda k: "rankp %d" % k, "ok ok ok ok ok", "C05_rank_total",
+                   "every ranking entry point returns normally", alphabet="deckblank", name="rankp_multisets",
+                   quick_strides={6: (4, 16, 16), 7: (128, 512, 512)}, thorough_stride={7: 4})
     if tier == "thorough":
         fams.append(fam_cmd("six_multisets_slice", ["multisets", "--k", "6", "--op", "rankp 6", "--stride", "8", "--offset", str(rng.below(8))],
                             "every 8th of the 6-slot multisets over {52 cards, blank}", exhaustive=False,
@@ -396,8 +416,40 @@ def six_seven_families(rng, tier, op, what, pinned=True):
     return fams
 
 
+def sweeps(rng, tier, op_of, expect, theorem, what, sizes=(6, 7), quick_strides=None, alphabet="deck", name="sweep",
+           thorough_stride=None):
+    """exhaustive implementation-only sweeps of a constant projection over all k-card hands in several slot orders:
+    shuffled (order 2), descending numeric = what sort() produces (3), deck order (0), and in the thorough tier also
+    reversed (1) and ascending (4), the shuffled order in the overflow-checked profile as well. Quick tier: a 1/stride
+    slice at a seeded offset (stride 1 = everything)."""
+    seed = rng.below(1 << 30) + 1
+    out = []
+    for k in sizes:
+        qs = (quick_strides or {}).get(k, {5: (1, 2, 2), 6: (1, 4, 4), 7: (8, 32, 32)}[k])
+        ts = (thorough_stride or {}).get(k, 1)
+        plan = [(2, qs[0], ["release"]), (3, qs[1], ["release"]), (0, qs[2], ["release"])] if tier == "quick" else \
+               [(2, ts, ["release", "chk"]), (3, ts, ["release"]), (0, ts, ["release"]), (1, 2 * ts, ["release"]), (4, 2 * ts, ["release"])]
+        for order, stride, profs in plan:
+            oname = {0: "deck order", 1: "reversed deck order", 2: "one seeded shuffle per hand", 3: "descending numeric order",
+                     4: "ascending numeric order"}[order]
+            dom = ("all C(52,%d) hands" % k) if alphabet == "deck" else ("all %d-slot multisets over the 52 cards and blank" % k)
+            out.append(fam_sweep("%s%d_order%d" % (name, k, order), op_of(k), k, order, expect, theorem,
+                                 "%s%s, %s: %s (implementation-only: the model's line is constant by the theorem)" %
+                                 (dom, "" if stride == 1 else " (1 of every %d, seeded offset)" % stride, oname, what),
+                                 seed=seed, stride=stride, offset=rng.below(stride) if stride > 1 else 0, alphabet=alphabet,
+                                 profiles=profs))
+    return out
+
+
 def c02_families(rng, tier):
-    return six_seven_families(rng, tier, "rankv", "values only")
+    fams = six_seven_families(rng, tier, "rankv", "values only")
+    lines = [line("best 6", rand_hand(rng, 6)) for _ in range(1500)] + [line("best 7", rand_hand(rng, 7)) for _ in range(1500)]
+    lines += [l.replace("x ", "best 7 ", 1) for l in made_hands(rng, 7, 600, "x")] + [l.replace("x ", "best 6 ", 1) for l in made_hands(rng, 6, 600, "x")]
+    fams.append(fam("best_projection", lines, "the projection the sweeps use, on model and implementation: does every entry point "
+                    "return the lowest value among the five-slot sub-hands ranked on their own", pinned=True))
+    fams += sweeps(rng, tier, lambda k: "best %d" % k, "1 1 1 1 1", "C02_value + C02_value5_is_rank",
+                   "every entry point returns the lowest five-card sub-hand value", name="best")
+    return fams
 
 
 def c03_families(rng, tier):
@@ -407,6 +459,9 @@ def c03_families(rng, tier):
     # re-ranks to the reported value (the property lets the code report ANY such witness, so the cards are not compared)
     fams = six_seven_families(rng, tier, "wit", "is the reported hand a sorted witness re-ranking to the reported value")
     fams.append(fam("fives_identity", sh, "five-card hands: the reported hand is the input", categories=cats, pinned=True))
+    fams += sweeps(rng, tier, lambda k: "wit %d" % k, "1 1 1 1", "C03_witness",
+                   "the reported hand is drawn from the input, duplicate-free, descending and re-ranks to the reported value",
+                   name="wit")
     return fams
 
 
@@ -418,9 +473,12 @@ def c09_families(rng, tier):
     # the same relation with the containers built through the other construction paths (setters, from-parts)
     lines += [line("chain7s", rand_hand(rng, 7)) for _ in range(n // 3)]
     lines += [l.replace("x 7 ", "chain7s ", 1) for l in row_targeted(rng, 7, "x 7")]
-    return [fam("seven_six_five_chains", lines,
+    fams = [fam("seven_six_five_chains", lines,
                 "seeded, made and row-targeted sevens: v7 <= all seven six-card values, v7 = their minimum, each v6 <= its six "
                 "five-card values and equals their minimum (projection: booleans only; 1 + 7 + 42 rankings per case)", pinned=True)]
+    fams += sweeps(rng, tier, lambda k: "chain7", "1 1 1 1", "C09_chain + C09_min_of_sub",
+                   "seven <= each six-subset <= each five-subset and both minima attained", sizes=(7,), name="chain")
+    return fams
 
 
 # ---- C04 ----------------------------------------------------------------------------------------------
@@ -431,7 +489,7 @@ def c04_alphabet():
 def c04_families(rng, tier):
     alpha = c04_alphabet()
     fams = []
-    sub, pairs, rnd = [], [], []
+    sub, pairs, rnd, parts = [], [], [], []
     cats = {"valid": 0, "duplicate": 0, "corrupt": 0}
     nr = 20000 if tier == "quick" else 300000
     for n in range(2, 8):
@@ -441,7 +499,9 @@ def c04_families(rng, tier):
             for w in alpha:
                 h = list(base)
                 h[slot] = w
-                sub.append(line("valid %d" % n, h))
+                sub.append(line("isvalid %d" % n, h))
+                if w != 0xFFFFFFFF and len(parts) < 30000:
+                    parts.append(line("valid %d" % n, h))
                 if op and (w in DECK or w % 7 == 0 or w == 0 or w == 0xFFFFFFFF):
                     sub.append(line(op, h))
         for i in range(n):
@@ -450,7 +510,7 @@ def c04_families(rng, tier):
                     for b in range(3):
                         h = rand_hand(rng, n)
                         h[j] = h[i]
-                        pairs.append(line("valid %d" % n, h))
+                        pairs.append(line("isvalid %d" % n, h))
                         if op:
                             pairs.append(line(op, h))
         for k in range(nr // 6):
@@ -465,7 +525,7 @@ def c04_families(rng, tier):
                 h = [rng.choice(alpha) if rng.below(3) == 0 else c for c in h]
             ok = len(set(h)) == n and all(c in DECK for c in h)
             cats["valid" if ok else ("duplicate" if len(set(h)) < n else "corrupt")] += 1
-            rnd.append(line("valid %d" % n, h))
+            rnd.append(line("isvalid %d" % n, h))
             if op:
                 rnd.append(line(op, h))
     garb = []
@@ -478,7 +538,7 @@ def c04_families(rng, tier):
                     h = list(suited)
                     h[slot] |= m
                     garb.append(line("vrank %d" % n, h))
-                    garb.append(line("valid %d" % n, h))
+                    garb.append(line("isvalid %d" % n, h))
                 for w in hi_words:
                     h = list(suited)
                     h[slot] = w
@@ -493,15 +553,18 @@ def c04_families(rng, tier):
                     "out of range, so validated ranking must return 0 before looking anything up", profiles=["release", "chk"], pinned=True))
     fams.append(fam("slot_substitution", sub, "sizes 2..7: every slot x every alphabet word (52 cards, blank, every single-bit corruption "
                     "of every card, flagged cards, 0xFFFFFFFF, 0..64, inconsistent-field words) substituted into a valid hand: "
-                    "is_valid / is_corrupt / are_unique / contain_blank; validated ranking for sizes 5..7 on a sub-alphabet",
+                    "is the hand reported valid (projection: is_valid only); validated ranking for sizes 5..7 on a sub-alphabet",
                     profiles=["release", "chk"], pinned=True))
     fams.append(fam("equal_slot_pairs", pairs, "sizes 2..7: EVERY slot pair (i,j) made equal, three hands each", profiles=["release", "chk"], pinned=True))
     fams.append(fam("seeded_arrangements", rnd, "seeded hands: valid / one duplicated slot / one alphabet word / several alphabet words",
                     categories=cats, profiles=["release", "chk"], pinned=True))
     cb = DECK + [0]
-    small = [line("valid 2", [a, b]) for a in cb for b in cb] + [line("valid 3", [a, b, c]) for a in cb for b in cb for c in cb]
+    small = [line("isvalid 2", [a, b]) for a in cb for b in cb] + [line("isvalid 3", [a, b, c]) for a in cb for b in cb for c in cb]
     fams.append(fam("all_two_three", small, "ALL 53^2 two-slot and 53^3 three-slot arrangements over {52 cards, blank}", exhaustive=True,
                     profiles=["release"], pinned=True))
+    fams.append(fam("validator_parts", parts, "is_valid / is_corrupt / are_unique / contain_blank separately on slot substitutions (beyond "
+                    "the property, which only fixes what is reported valid: ties the model's helper predicates; words equal to the "
+                    "0xFFFFFFFF sentinel of Six/Seven are left out)", profiles=["release"], beyond=True))
     ws, wc = words_family(rng, 2000 if tier == "quick" else 200000)
     fams.append(fam("filter", ["filter %d" % w for w in ws], "the per-slot recogniser on cards, near-miss words and seeded u32 (its complete "
                     "2^32 graph is regenerated into Gen/Scan.v on every run)", categories=wc, pinned=True))
@@ -530,7 +593,9 @@ def c06_families(rng, tier):
 def c07_families(rng, tier):
     n = 150000 if tier == "quick" else 3000000
     b = BOUNDARY + [rng.below(65536) for _ in range(12)]
-    pairs = ["hrcmp %d %d" % (x, y) for x in b for y in b]
+    # projection `hrcmpp`: for two INVALID ranks the laws (Equal iff ==, antisymmetry, partial_cmp, operators against cmp), since
+    # the property leaves the order among invalid ranks open; otherwise cmp, partial_cmp, ==, !=, <, <=, >, >= themselves
+    pairs = ["hrcmpp %d %d" % (x, y) for x in b for y in b]
     rnd = []
     cats = {"valid_valid": 0, "valid_invalid": 0, "invalid_invalid": 0}
     for i in range(n):
@@ -541,23 +606,49 @@ def c07_families(rng, tier):
             y = x
         vx, vy = 1 <= x <= 7462, 1 <= y <= 7462
         cats["valid_valid" if vx and vy else ("invalid_invalid" if not vx and not vy else "valid_invalid")] += 1
-        rnd.append("hrcmp %d %d" % (x, y))
-    diag = ["hrcmp %d %d" % (v, v) for v in range(0, 65536, 1 if tier == "thorough" else 7)]
-    adj_valid, adj_other = [], []
-    for v in list(range(0, 7470)) + [32767, 65534]:
+        rnd.append("hrcmpp %d %d" % (x, y))
+    diag = ["hrcmpp %d %d" % (v, v) for v in range(0, 65536, 1 if tier == "thorough" else 7)]
+    adj_valid, adj_other, direction = [], [], []
+    for v in list(range(0, 7470)) + list(range(7470, 65535, 1 if tier == "thorough" else 13)) + [32767, 65534]:
         tgt = adj_valid if 1 <= v and v + 1 <= 7462 else adj_other
-        tgt.append("hrcmp %d %d" % (v, v + 1))
-        tgt.append("hrcmp %d %d" % (v + 1, v))
+        tgt.append("hrcmpp %d %d" % (v, v + 1))
+        tgt.append("hrcmpp %d %d" % (v + 1, v))
+        if not (1 <= v <= 7462) and not (1 <= v + 1 <= 7462) and len(direction) < 20000:
+            direction.append("hrcmp %d %d" % (v, v + 1))
+    direction += ["hrcmp 0 %d" % v for v in (7463, 7464, 30000, 65535)] + ["hrcmp %d 0" % v for v in (7463, 65535)]
+    tri = []
+    nt = 60000 if tier == "quick" else 1000000
+    pool = b + [0, 7463, 7464, 65535, 65534, 32768]
+    for i in range(nt):
+        k = i % 5
+        if k == 0:
+            t = [rng.choice(pool) for _ in range(3)]
+        elif k == 1:      # three invalid values
+            t = [rng.choice([0] + [7463 + rng.below(65536 - 7463)]) if rng.below(8) else 0 for _ in range(3)]
+        elif k == 2:      # three valid values, close together
+            c0 = 1 + rng.below(7462)
+            t = [max(1, min(7462, c0 + rng.below(5) - 2)) for _ in range(3)]
+        elif k == 3:      # mixed, with repeats
+            t = [rng.below(65536), rng.below(7464), rng.below(65536)]
+            if rng.below(3) == 0:
+                t[2] = t[0]
+        else:
+            t = [rng.below(65536) for _ in range(3)]
+        tri.append("hrtri %d %d %d" % tuple(t))
     return [
         fam("diagonal", diag, "every 7th value (thorough: every value) against itself: cmp Equal, ==, <=, >= (fixed by C07_reflexive / C07_eq)",
             pinned=True),
         fam("adjacent_valid", adj_valid, "every adjacent pair of valid values in both orders: the lower value is Greater (fixed by C07_order)",
             pinned=True),
-        fam("adjacent_other", adj_other, "adjacent pairs around 0, 7462/7463 and the top of the range (order among invalid ranks is not fixed by the property)"),
+        fam("adjacent_other", adj_other, "adjacent pairs around 0 and 7462/7463 and adjacent invalid values up to 65535 (every 13th; thorough: all) "
+            "in both orders: valid against invalid by value, two invalid ranks by the laws (Equal iff ==, antisymmetric, operators agree)", pinned=True),
         fam("boundary_pairs", pairs, "ALL ordered pairs over every category boundary +-1, 0, 7462..7465, powers of two, 65534/65535 and 12 seeded "
-            "values: cmp, partial_cmp, ==, !=, <, <=, >, >= (the ORDER AMONG INVALID RANKS is the model's choice, not demanded by the "
-            "property, so a disagreement here is not by itself a failing input: the oracle decides)"),
-        fam("seeded_pairs", rnd, "seeded pairs: both valid / mixed / both arbitrary u16, some equal", categories=cats),
+            "values: cmp, partial_cmp, ==, !=, <, <=, >, >= (two invalid ranks: the laws)", pinned=True),
+        fam("seeded_pairs", rnd, "seeded pairs: both valid / mixed / both arbitrary u16, some equal", categories=cats, pinned=True),
+        fam("seeded_triples", tri, "seeded triples (boundary pool / three invalid / three close valid / mixed with repeats / arbitrary): "
+            "a <= b and b <= c imply a <= c; cmp(a,b) = Equal implies cmp(a,c) = cmp(b,c)", pinned=True),
+        fam("invalid_order_direction", direction, "cmp itself on pairs of invalid values (BEYOND the property, which does not fix the order among "
+            "invalid ranks: records whether the model's choice, higher value sorts lower, is still the code's)", beyond=True),
     ]
 
 
@@ -580,9 +671,11 @@ def c08_families(rng, tier):
     val += [l.replace("x ", "shiftinv 6 ", 1) for l in made_hands(rng, 6, n // 10, "x")]
     val += [l.replace("x ", "shiftinv 7 ", 1) for l in made_hands(rng, 7, n // 10, "x")]
     val += [l.replace("x", "shiftinv", 1) for l in row_targeted(rng, 6, "x 6") + row_targeted(rng, 7, "x 7")]
-    return [
+    return sweeps(rng, tier, lambda k: "shiftinv %d" % k, "1 1 1 1 1 1 1", "C08_shift_invariant + C08_cycle + C04_validated",
+                  "value and validated value unchanged by one, two and three shifts; four shifts restore the hand",
+                  sizes=(5, 6, 7), name="shiftinv") + [
         fam("shift_card", ["shift %d" % w for w in DECK + [0]], "shift_suit on all 52 cards and blank", exhaustive=True, pinned=True),
-        fam("shift_words", ["shift %d" % w for w in near_miss_words()], "shift_suit on near-miss words (beyond the property: ties the model's logic)"),
+        fam("shift_words", ["shift %d" % w for w in near_miss_words()], "shift_suit on near-miss words (beyond the property: ties the model's logic)", beyond=True),
         fam("shift_hands", hands, "shift_suit of Two..Seven over cards (and blanks) in random order: slot-wise", categories=cats, pinned=True),
         fam("value_invariance", val, "seeded, made and row-targeted five/six/seven-card hands: is hand_rank_value unchanged by one, two and three "
             "suit shifts, and do four shifts restore the hand (projection: booleans only, so a wrong-but-invariant value is not an alarm here)", pinned=True),
@@ -644,6 +737,22 @@ def is_ws(c):
     return chr(c).isspace() or c in (0x85,)
 
 
+def rust_ws(c):
+    """char::is_whitespace (Unicode White_Space)"""
+    return (0x9 <= c <= 0xD) or c in (0x20, 0x85, 0xA0, 0x1680, 0x2028, 0x2029, 0x202F, 0x205F, 0x3000) or 0x2000 <= c <= 0x200A
+
+
+def count_tokens(s):
+    n, inside = 0, False
+    for c in s:
+        if rust_ws(c):
+            inside = False
+        elif not inside:
+            inside = True
+            n += 1
+    return n
+
+
 def c12_families(rng, tier):
     alpha = sorted(set(RANK_SYMS + SUIT_SYMS + OTHER_CHARS))
     tails = [[], [ord("x")], [0x2660], [ord("A"), ord("S"), ord("K")], [0x10FFFF, 0]]
@@ -662,6 +771,7 @@ def c12_families(rng, tier):
     tok.append("parsecard")
     # token lists with random unicode whitespace runs
     hands = []
+    extra = []
     cats = {"too_few_tokens": 0, "exact": 0, "extra_tokens": 0}
     card_tokens = [[r, s] for r in RANK_SYMS[:13] for s in SUIT_SYMS[:8:2] + SUIT_SYMS[8:12]]
     nh = 4000 if tier == "quick" else 80000
@@ -685,7 +795,7 @@ def c12_families(rng, tier):
             for _ in range(1 + rng.below(3)):
                 s.append(rng.choice(WS_CHARS))
         cats["too_few_tokens" if nt < n else ("exact" if nt == n else "extra_tokens")] += 1
-        hands.append("parsehand %d %s" % (n, " ".join(str(c) for c in s)))
+        (hands if nt <= n else extra).append("parsehand %d %s" % (n, " ".join(str(c) for c in s)))
         if i % 3 == 0:
             hands.append("bcindex " + " ".join(str(c) for c in s))
     hands += ["parsehand %d" % n for n in range(2, 8)] + ["bcindex"]
@@ -702,13 +812,15 @@ def c12_families(rng, tier):
                 c = 0x20
             s.append(c)
         arb.append("parsecard " + " ".join(str(c) for c in s if not is_ws(c)))
-        arb.append("parsehand %d %s" % (2 + i % 6, " ".join(str(c) for c in s)))
+        (arb if count_tokens(s) <= 2 + i % 6 else extra).append("parsehand %d %s" % (2 + i % 6, " ".join(str(c) for c in s)))
         arb.append("bcindex " + " ".join(str(c) for c in s))
     return [
         fam("token_pairs", tok, "card tokens: EVERY ordered pair of leading characters from an alphabet of all rank and suit symbols, separators, "
             "1-4 byte characters, U+0000, U+10FFFF, U+FE0F x 5 tails; single-character and empty tokens", pinned=True),
         fam("hand_texts", hands, "hand parsers of sizes 2..7 (and BinaryCard::from_index, parse::five_from_index) on 0..9 tokens separated by "
             "random Unicode whitespace runs; tokens are cards, junk, or cards with tails", categories=cats, pinned=True),
+        fam("hand_texts_extra_tokens", extra, "hand parsers given MORE tokens than slots (beyond the property, which fixes too few and exactly "
+            "enough: the model, like the code, ignores the rest)", beyond=True),
         fam("arbitrary_strings", arb, "seeded arbitrary scalar-value strings through the card, hand and bit-set parsers", pinned=True),
         fam_cmd("all_scalars", ["scalars", "--op", "parsecard"],
                 "EVERY Unicode scalar value as the first character of a token (before 'S') and as the second (after 'A') through "
@@ -859,7 +971,27 @@ def c19_families(rng, tier):
                 toks += ["default"]
                 cats["default"] += 1
         hist.append(" ".join(toks))
+    # histories over a SMALL pool of words, so that a written word often equals the word already in that slot, the word in a
+    # neighbouring slot, or differs from one only in the three mark bits; constructor arguments come from the same pool
+    small = []
+    for i in range(n):
+        n_slots = 2 + i % 6
+        w0 = rng.choice(DECK)
+        pool = [0, w0, w0 | 0x20000000, w0 | 0x40000000, w0 | 0x80000000, rng.choice(DECK), rng.next() & 0xFFFFFFFF, 0xFFFFFFFF][:4 + rng.below(5)]
+        toks = ["hist", str(n_slots)]
+        for _ in range(2 + rng.below(14)):
+            k = rng.below(10)
+            if k < 7:
+                toks += ["set", str(rng.below(n_slots)), str(rng.choice(pool))]
+            elif k == 7:
+                toks += ["refarr" if rng.below(3) == 0 else "arr"] + [str(rng.choice(pool)) for _ in range(n_slots)]
+            elif k == 8:
+                toks += ["new"] + [str(rng.choice(pool)) for _ in range(n_slots)]
+            else:
+                toks += ["default"]
+        small.append(" ".join(toks))
     perms = []
+    oor = []
     import itertools
     for n_slots in (6, 7):
         ws = [100 + 11 * i for i in range(n_slots)]
@@ -867,13 +999,17 @@ def c19_families(rng, tier):
         for t in tuples:
             perms.append("perm %d %s %s" % (n_slots, " ".join(map(str, ws)), " ".join(map(str, t))))
         for bad in ([0, 1, 2, 3, n_slots], [255, 0, 0, 0, 0], [n_slots, n_slots, 0, 1, 2]):
-            perms.append("perm %d %s %s" % (n_slots, " ".join(map(str, ws)), " ".join(map(str, bad))))
+            oor.append("perm %d %s %s" % (n_slots, " ".join(map(str, ws)), " ".join(map(str, bad))))
     return [
         fam("histories", hist, "every setter of every size after every constructor on distinct sentinel words; seeded histories of 1..40 "
             "constructor / setter calls with arbitrary u32 words; after EVERY step the container is read back by to_arr, accessors and iter",
             categories=cats, pinned=True),
-        fam("five_from_permutation", perms, "slot-index selection from six and seven slots: ALL 6^5 and 7^5 in-range index tuples, and out-of-range ones (panic)",
+        fam("small_pool_histories", small, "seeded histories whose words come from a pool of 4..8 words (blank, a card, the same card with each "
+            "mark bit, another card, a random word, u32::MAX): written words coincide with the slot's own word, a neighbour's word, or "
+            "differ from one in the mark bits only; from-parts constructors get overlapping parts", pinned=True),
+        fam("five_from_permutation", perms, "slot-index selection from six and seven slots: ALL 6^5 and 7^5 in-range index tuples",
             exhaustive=True, pinned=True),
+        fam("selection_out_of_range", oor, "out-of-range slot indices (beyond the property, which quantifies over in-range tuples: the model says panic)", beyond=True),
     ]
 
 
